@@ -425,7 +425,8 @@ pub fn run(tier: Tier, replay: Option<Value>) -> i32 {
         run.count("memcheck_unavailable", 1);
     }
     let n = tier.pick(4u64, 120);
-    for case in (0..n).chain([SCALE_CASE]) {
+    // the scale subject first: the soft time budget must never be what skips it
+    for case in [SCALE_CASE].into_iter().chain(0..n) {
         if let Some(r) = &replay {
             if r.get("case").and_then(|c| c.as_u64()) != Some(case) {
                 continue;
@@ -461,9 +462,7 @@ pub fn run(tier: Tier, replay: Option<Value>) -> i32 {
         run.count("archives", 1);
         let flips = tier.pick(2, 6);
         let damages = if case == SCALE_CASE { damage::scale_damages() } else { damage::all_damages(&s.world.arch, true, flips) };
-        if case == SCALE_CASE {
-            run.count("damages_on_a_band_with_two_hunk_subdirectories", damages.len() as u64);
-        }
+
         run.sample(|| json!({"case": case, "history": s.desc, "bands": s.bands, "complete": s.complete, "fault_free_storage_ops": base_ops, "damages": damages.len(),
             "first_damages": damages.iter().take(6).map(|d| d.desc()).collect::<Vec<_>>()}));
         let only = replay.as_ref().and_then(|r| r.get("damage_index")).and_then(|d| d.as_u64()).map(|d| d as usize);
@@ -484,6 +483,8 @@ pub fn run(tier: Tier, replay: Option<Value>) -> i32 {
                     }
                     if let Err(m) = crate::report::guard(|| one_damage(&run, &s, &raw_pre, &base_errors, &exe, &[], budget, case, i, &damages[i], "damaged_archives_run")) {
                         run.inconclusive(format!("harness error: {m}"));
+                    } else if case == SCALE_CASE {
+                        run.count("damages_on_a_band_with_two_hunk_subdirectories", 1);
                     }
                 });
             }
